@@ -3,8 +3,11 @@ package rules
 import (
 	"fmt"
 	"go/ast"
+	"go/constant"
 	"go/token"
+	"go/types"
 	"sort"
+	"strings"
 
 	"golang.org/x/tools/go/ssa"
 
@@ -292,7 +295,7 @@ func c18Path(c *core.Ctx, r *core.Reporter) {
 }
 
 func init() {
-	register(&core.Rule{Name: "C18/EXH-lineterm", Props: []string{"C18"}, Min: 1,
+	register(&core.Rule{Name: "C18/EXH-lineterm", Props: []string{"C18", "C09"}, Min: 1,
 		Doc: "every place that splits the source into lines uses the same line-terminator pattern", Run: c18LineTerm})
 }
 
@@ -327,7 +330,7 @@ func c18LineTerm(c *core.Ctx, r *core.Reporter) {
 	for _, v := range pats {
 		n += len(v)
 	}
-	if n < 3 {
+	if n < 1 {
 		r.Unknown("line-terminator-pattern", pos, "expected line-splitting patterns in location, gqlerrors and lexer; found %d", n)
 		return
 	}
@@ -351,4 +354,253 @@ func containsAny(s string, subs ...string) bool {
 		}
 	}
 	return false
+}
+
+func init() {
+	register(&core.Rule{Name: "C03/EXH-lineterm-scan", Props: []string{"C03", "C18"}, Min: 4,
+		Doc: "every scanner condition or search that looks for one of LF / CR looks for the other too", Run: c03LineTermScan})
+}
+
+// c03LineTermScan: the grammar's LineTerminator is LF, CR or CRLF. In the packages that scan request text, a condition
+// that compares a character with LF must compare it with CR as well (and the other way round), and no search / split
+// call may look for "\n" alone: text whose lines end in a bare CR would be scanned as one line.
+func c03LineTermScan(c *core.Ctx, r *core.Reporter) {
+	per := map[string]int{}
+	for _, rel := range []string{"language/lexer", "language/location", "gqlerrors"} {
+		p := c.Pkg(rel)
+		if p == nil {
+			r.Unknown(rel, token.NoPos, "package not loaded")
+			continue
+		}
+		info := p.TypesInfo
+		constInt := func(e ast.Expr) (int64, bool) {
+			tv, ok := info.Types[e]
+			if !ok || tv.Value == nil || tv.Value.Kind() != constant.Int {
+				return 0, false
+			}
+			return constant.Int64Val(tv.Value)
+		}
+		for _, f := range p.Syntax {
+			done := map[ast.Node]bool{}
+			core.WalkStack(f, func(n ast.Node, stack []ast.Node) bool {
+				switch x := n.(type) {
+				case *ast.BinaryExpr:
+					if x.Op != token.EQL && x.Op != token.NEQ {
+						return true
+					}
+					v, ok := constInt(x.Y)
+					if !ok {
+						v, ok = constInt(x.X)
+					}
+					if !ok || (v != 10 && v != 13) {
+						return true
+					}
+					// the whole condition this comparison is part of
+					root := ast.Node(x)
+					for i := len(stack) - 2; i >= 0; i-- {
+						switch pe := stack[i].(type) {
+						case *ast.BinaryExpr:
+							if pe.Op == token.LAND || pe.Op == token.LOR {
+								root = pe
+								continue
+							}
+						case *ast.ParenExpr, *ast.UnaryExpr:
+							root = pe
+							continue
+						}
+						break
+					}
+					if done[root] {
+						return true
+					}
+					done[root] = true
+					have := map[int64]bool{}
+					ast.Inspect(root, func(m ast.Node) bool {
+						if be, ok := m.(*ast.BinaryExpr); ok && (be.Op == token.EQL || be.Op == token.NEQ) {
+							if w, ok := constInt(be.Y); ok {
+								have[w] = true
+							}
+							if w, ok := constInt(be.X); ok {
+								have[w] = true
+							}
+						}
+						return true
+					})
+					fn := enclosingFuncName(stack)
+					per[fn]++
+					key := fmt.Sprintf("%s/condition#%d", fn, per[fn])
+					r.Check(have[10] && have[13], key, x.Pos(), "the condition looks at both LF and CR",
+						"a scanner condition in "+fn+" compares a character with only one of LF / CR: the other line terminator is treated as ordinary text there")
+				case *ast.CallExpr:
+					fo := core.CalleeObj(info, x)
+					if fo == nil || fo.Pkg() == nil || (fo.Pkg().Path() != "strings" && fo.Pkg().Path() != "bytes") {
+						return true
+					}
+					search := false
+					for _, pre := range []string{"Index", "LastIndex", "Split", "Contains", "Count", "Cut", "Trim", "Fields", "HasSuffix", "HasPrefix"} {
+						if strings.HasPrefix(fo.Name(), pre) {
+							search = true
+						}
+					}
+					if !search {
+						return true
+					}
+					for _, a := range x.Args[1:] {
+						tv, ok := info.Types[a]
+						if !ok || tv.Value == nil {
+							continue
+						}
+						var s string
+						switch tv.Value.Kind() {
+						case constant.String:
+							s = constant.StringVal(tv.Value)
+						case constant.Int:
+							v, _ := constant.Int64Val(tv.Value)
+							s = string(rune(v))
+						}
+						lf, cr := strings.Contains(s, "\n"), strings.Contains(s, "\r")
+						if lf != cr {
+							fn := enclosingFuncName(stack)
+							per[fn]++
+							r.Bad(fmt.Sprintf("%s/search#%d", fn, per[fn]), x.Pos(), "%s searches request text with %s.%s for only one of LF / CR: a line (a comment, a quoted source line) that ends in the other terminator is not seen to end — text after a bare CR is swallowed or wrongly rejected", fn, fo.Pkg().Name(), fo.Name())
+						}
+					}
+				}
+				return true
+			})
+		}
+	}
+}
+
+func enclosingFuncName(stack []ast.Node) string {
+	for i := len(stack) - 1; i >= 0; i-- {
+		if fd, ok := stack[i].(*ast.FuncDecl); ok {
+			return core.DeclName(fd)
+		}
+	}
+	return "package-level"
+}
+
+func init() {
+	register(&core.Rule{Name: "C18/FLOW-column", Props: []string{"C18"}, Min: 1,
+		Doc: "the column depends on where the preceding line terminator ends, not only on where it starts", Run: c18Column})
+}
+
+// c18Column: "\r\nX" and "\rXX" have their first line terminator at the same offset, yet offset 2 is column 1 of line 2
+// in the first and column 2 of line 2 in the second. Whatever computes the column from the terminator matches must
+// therefore read the end of the match (or the bytes of the text); a column computed from match starts and the
+// position alone is wrong for one of CR / CRLF.
+func c18Column(c *core.Ctx, r *core.Reporter) {
+	fn := c.Func("language/location", "GetLocation")
+	if fn == nil {
+		r.Unknown("GetLocation/column", token.NoPos, "not found")
+		return
+	}
+	var colVals []ssa.Value
+	core.Instrs(fn, func(in ssa.Instruction) {
+		if st, ok := in.(*ssa.Store); ok {
+			if fa, ok := st.Addr.(*ssa.FieldAddr); ok {
+				if f := core.FieldOf(fa); f != nil && f.Name() == "Column" {
+					colVals = append(colVals, st.Val)
+				}
+			}
+		}
+	})
+	if len(colVals) == 0 {
+		r.Unknown("GetLocation/column", fn.Pos(), "no store to SourceLocation.Column found")
+		return
+	}
+	seen := map[ssa.Value]bool{}
+	readsEnd := false
+	var walk func(v ssa.Value)
+	walk = func(v ssa.Value) {
+		if v == nil || seen[v] {
+			return
+		}
+		seen[v] = true
+		switch x := v.(type) {
+		case *ssa.IndexAddr:
+			if sl, ok := x.X.Type().Underlying().(*types.Slice); ok {
+				if b, ok := sl.Elem().Underlying().(*types.Basic); ok {
+					if i, isConst := core.ConstInt(x.Index); b.Kind() == types.Int && !(isConst && i == 0) {
+						readsEnd = true
+					}
+					if b.Kind() == types.Uint8 {
+						readsEnd = true
+					}
+				}
+			}
+		case *ssa.Index, *ssa.Lookup:
+			readsEnd = true
+		}
+		in, ok := v.(ssa.Instruction)
+		if !ok {
+			return
+		}
+		for _, op := range in.Operands(nil) {
+			if *op != nil {
+				walk(*op)
+			}
+		}
+		// values kept in a local cell: follow the stores
+		if u, ok := v.(*ssa.UnOp); ok && u.Op == token.MUL {
+			if al, ok := u.X.(*ssa.Alloc); ok {
+				for _, st := range core.StoresTo(al) {
+					walk(st.Val)
+				}
+			}
+		}
+	}
+	for _, v := range colVals {
+		walk(v)
+	}
+	r.Check(readsEnd, "GetLocation/column", fn.Pos(), "the column is computed from the end of the preceding line-terminator match",
+		"the column reported by GetLocation depends only on where the preceding line terminator starts (and on the position): a two-byte CRLF and a one-byte CR / LF then give the same column, so every location on a line that follows a CRLF is one column off")
+}
+
+func init() {
+	register(&core.Rule{Name: "C18/OWN-path", Props: []string{"C18", "C07"}, Min: 1,
+		Doc: "response path nodes are immutable once built: the only writes to a ResponsePath go to a node allocated by the writing function", Run: c18PathOwn})
+}
+
+// c18PathOwn: a ResponsePath node is shared by every field below it (siblings resolve concurrently) and its key
+// sequence is handed to errors without a copy. Anything that stores into an existing node (a cached key slice, for
+// one) makes the paths of different errors share memory: a later sibling's key overwrites the path already recorded
+// for an earlier error, and concurrent siblings race on the node.
+func c18PathOwn(c *core.Ctx, r *core.Reporter) {
+	n := 0
+	per := map[string]int{}
+	for _, fn := range c.LibFuncs() {
+		for _, w := range core.WritesIn(fn) {
+			if w.Owner == nil || w.Owner.Obj().Name() != "ResponsePath" {
+				continue
+			}
+			n++
+			name := fnKey(fn)
+			per[name]++
+			key := fmt.Sprintf("%s/ResponsePath.%s#%d", name, w.Field.Name(), per[name])
+			if w.Fresh {
+				r.OK(key, w.In.Pos(), "store into a node allocated by %s itself", name)
+			} else {
+				r.Bad(key, w.In.Pos(), "%s stores into field %s of an existing ResponsePath node: path nodes are shared by all fields below them, so path slices handed to errors alias each other (a later sibling's key overwrites the last element of an already recorded error path) and concurrent siblings race on the node", name, w.Field.Name())
+			}
+		}
+	}
+	if n == 0 {
+		r.OK("ResponsePath/no-writes", token.NoPos, "no store to a ResponsePath field outside composite literals")
+	}
+	// AsArray must hand out a slice that nothing else holds: its result may not be loaded from a field
+	if fn := c.Func("", "ResponsePath.AsArray"); fn != nil {
+		bad := false
+		for _, ret := range core.Returns(fn) {
+			if len(ret.Results) == 1 {
+				for _, k := range core.Classes(core.RetVal(ret, 0)) {
+					if strings.HasPrefix(k, "field:") {
+						bad = true
+					}
+				}
+			}
+		}
+		r.Check(!bad, "ResponsePath.AsArray/fresh-result", fn.Pos(), "AsArray returns a slice it has just built", "AsArray returns a slice stored in the path node: every caller appends to / keeps the same backing array")
+	}
 }
